@@ -189,7 +189,7 @@ async fn observe(h: &SyncHandle, ns: NamespaceId) -> anyhow::Result<Obs> {
 }
 
 pub fn run(ctx: &mut Ctx) {
-    for case in ctx.cases(200, 30_000) {
+    for case in ctx.cases(600, 60_000) {
         let mut rng = ctx.rng(case);
         let rt = act::runtime(1);
         rt.block_on(one(ctx, case, &mut rng));
